@@ -16,7 +16,7 @@
    final state lists the file system after every dump call (every prefix of the effect sequence).
    Every theorem quantifies over ALL plans, partition lists, retry counts and call offsets. *)
 From Coq Require Import List Bool Arith NArith.
-Require Import PV.Gen.SaveOrder PV.Model.Save PV.Proofs.Save PV.Proofs.SaveNames PV.Proofs.SaveHistory.
+Require Import PV.Gen.SaveOrder PV.Model.Save PV.Proofs.Save PV.Proofs.SaveNames PV.Proofs.SaveHistory PV.Proofs.SavePersist.
 Import ListNotations.
 
 (* ---- clause 1: an existing target is refused before anything is written or modified ----
@@ -123,6 +123,18 @@ Theorem C09_compute_stop_never_bare : forall A render sv p m xs f0 c0 lk e s',
   save A render sv p m xs (init_st f0 c0 lk) = (Err e, s') -> e <> ECompute KStop.
 Proof. exact compute_stop_never_bare. Qed.
 
+(* ---- saving a PERSISTED data set ----
+   [persist_plan cached p]: the plan as a persisted (cache()) data set sees it -- the first [cached] partitions were
+   materialised beforehand and are not computed again; within a task a partition is computed again only while every
+   earlier attempt failed computing it.  Every theorem of this file quantifies over all plans, hence holds for
+   [persist_plan cached p] too; in particular: a partition not yet materialised that fails while being computed
+   (at its first, a middle, its last element or after it) on every attempt makes the save fail, without marker. *)
+Theorem C09_persisted_compute_failure_surfaces : forall A render sv p m xs c0 cached i r s',
+  1 <= m -> i < length xs -> cached <= i -> (forall a, 1 <= a <= m -> cf p i a = true) ->
+  save A render sv (persist_plan cached p) m xs (init_st FAbsent c0 false) = (r, s') ->
+  exists e, r = Err e /\ (from_compute e \/ from_write e) /\ child (s_fs s') NMarker = None.
+Proof. exact persisted_compute_failure_surfaces. Qed.
+
 (* ---- "and the context remains usable" ----
    After ANY save (successful, refused, failed anywhere) started with the lock free, the lock is free and a
    later job on the same context runs.  Depends on the regenerated [runjob_lock_release = ReleaseFinally]. *)
@@ -142,6 +154,15 @@ Theorem C09_read_marked_dir : forall A render B items decode,
   forall f, In f (s_hist s' ++ [s_fs s']) -> child f NMarker <> None ->
   read_target B decode f = Ok (concat (map items xs)).
 Proof. exact read_marked_dir. Qed.
+(* ... and each part file on its own decodes to the data of its partition (any partition size) *)
+Theorem C09_read_each_part_file : forall A render B (items : A -> list B) decode,
+  (forall x : A, decode (render x) = Ok (items x)) ->
+  forall sv p m xs c0 r s',
+  save A render sv p m xs (init_st FAbsent c0 false) = (r, s') ->
+  forall f, In f (s_hist s' ++ [s_fs s']) -> child f NMarker <> None ->
+  forall i x, nth_error xs i = Some x ->
+  exists c, child f (NPart i) = Some c /\ decode c = Ok (items x).
+Proof. exact read_each_part_file. Qed.
 (* the text saver with the text reader: elements without a line break *)
 Theorem C09_read_marked_dir_text : forall p m (xs : list (list bytes)) c0 r s',
   Forall (Forall (fun l => ~ In nl l)) xs ->
@@ -251,4 +272,15 @@ Proof. vm_compute. repeat split. Qed.
 Example generator_exit_not_retried :
   let '(r, s) := run_text (plan_c KGenExit true [(1, 1)]) 3 ex_parts FAbsent in
   r = Err (ECompute KGenExit) /\ s_fs s = FDir [(NPart 0, [97; 10]%N)] /\ s_calls s = 1 /\ s_locked s = false.
+Proof. vm_compute. repeat split. Qed.
+(* persisted data set, partition 1 fails on both attempts (hypotheses of C09_persisted_compute_failure_surfaces);
+   and: a write fault on attempt 1 followed by a compute fault scripted for attempt 2 -- the partition was cached by
+   attempt 1, attempt 2 does not compute it again and the save completes *)
+Example persisted_save :
+  (let '(r, s) := run_text (persist_plan 0 (plan_c KInjected true [(1, 1); (1, 2)])) 2 ex_parts FAbsent in
+   r = Err (ECompute KInjected) /\ child (s_fs s) NMarker = None) /\
+  (let p := mkplan (fun k => if Nat.eqb k 1 then Some WBefore else None) (fun _ => KInjected)
+                   (fun i a => Nat.eqb i 1 && Nat.eqb a 2) (fun _ _ => KInjected) (fun _ _ => true) in
+   fst (run_text (persist_plan 0 p) 3 ex_parts FAbsent) = Ok tt /\ fst (run_text p 3 ex_parts FAbsent) = Ok tt /\
+   s_calls (snd (run_text (persist_plan 0 p) 3 ex_parts FAbsent)) = 5 /\ take_visits [1; 0; 2; 3] 2 = 3).
 Proof. vm_compute. repeat split. Qed.
